@@ -65,10 +65,10 @@ type rtCase struct {
 	Repeat int      `json:"repeat,omitempty"` // Rows are written Repeat times (big variants)
 	Tail   [][]cell `json:"tail,omitempty"`   // rows after the repeated block
 
-	Format        string `json:"format"`          // CSV TSV LTSV FIXED JSON JSONL
-	Delim         string `json:"delim,omitempty"` // CSV
-	Fixed         string `json:"fixed,omitempty"` // auto | explicit | single
-	Slack         []int  `json:"slack,omitempty"` // explicit/single: column width = widest content + slack (negative: too narrow)
+	Format        string `json:"format"`           // CSV TSV LTSV FIXED JSON JSONL
+	Delim         string `json:"delim,omitempty"`  // CSV
+	Fixed         string `json:"fixed,omitempty"`  // auto | explicit | single
+	Slack         []int  `json:"slack,omitempty"`  // explicit/single: column width = widest content + slack (negative: too narrow)
 	Widths        []int  `json:"widths,omitempty"` // explicit/single: absolute column widths in bytes (overrides Slack; CLI dialect check)
 	Enc           string `json:"enc"`
 	LB            string `json:"lb"`
@@ -323,21 +323,26 @@ func (c rtCase) defaultDialect() bool {
 	return c.Format == "CSV" && c.delim() == ',' && c.Enc == "UTF8" && c.LB == "LF" && !c.EncloseAll && !c.WithoutHeader && !c.Strip
 }
 
-// outcome fills classes and, for a non-trivial case, the fingerprint.
-func (c rtCase) outcome() fw.Outcome {
+// outcome fills classes and, for a non-trivial case, the fingerprint. full:
+// all labels (roundtrip_inproc; the other checks draw from the same generator
+// and only label the format, the evidence histogram keeps the 80 largest labels).
+func (c rtCase) outcome(full bool) fw.Outcome {
 	cls := c.contentClasses()
-	o := fw.Outcome{Classes: []string{"fmt:" + c.Format, "enc:" + c.Enc, "lb:" + c.LB}}
-	if c.Format == "FIXED" {
-		o.Classes = append(o.Classes, "fixed:"+c.Fixed)
-	}
-	for _, k := range cls {
-		o.Classes = append(o.Classes, "has:"+k)
+	o := fw.Outcome{Classes: []string{"fmt:" + c.Format}}
+	if full {
+		o.Classes = append(o.Classes, "enc:"+c.Enc, "lb:"+c.LB)
+		if c.Format == "FIXED" {
+			o.Classes = append(o.Classes, "fixed:"+c.Fixed)
+		}
+		for _, k := range cls {
+			o.Classes = append(o.Classes, "has:"+k)
+		}
+		if len(c.allRows()) == 0 {
+			o.Classes = append(o.Classes, "zero_rows")
+		}
 	}
 	if c.Repeat > 1 {
 		o.Classes = append(o.Classes, "big")
-	}
-	if len(c.allRows()) == 0 {
-		o.Classes = append(o.Classes, "zero_rows")
 	}
 	special := false
 	for _, k := range cls {
